@@ -3,6 +3,7 @@
 import hashlib
 import inspect
 from collections.abc import Callable
+from typing import Any
 
 
 def ensure_tuple(value: str | tuple[str, ...]) -> tuple[str, ...]:
@@ -23,6 +24,22 @@ def ensure_tuple(value: str | tuple[str, ...]) -> tuple[str, ...]:
     if isinstance(value, str):
         return (value,)
     return value
+
+
+def _hash_runtime_bindings(h: Any, func: Callable) -> None:
+    """Mix what a function object carries beyond its code into hash ``h``."""
+    # Include function defaults to distinguish f(x=1) from f(x=2)
+    h.update(repr(getattr(func, "__defaults__", None)).encode())
+    h.update(repr(getattr(func, "__kwdefaults__", None)).encode())
+
+    # Include closure values to distinguish functions with different captured variables
+    closure = getattr(func, "__closure__", None)
+    if closure:
+        for cell in closure:
+            try:
+                h.update(repr(cell.cell_contents).encode())
+            except ValueError:
+                h.update(b"<empty_cell>")
 
 
 def hash_definition(func: Callable) -> str:
@@ -46,9 +63,15 @@ def hash_definition(func: Callable) -> str:
     # Prefer source code — most precise, captures comments and formatting
     try:
         source = inspect.getsource(func)
-        return hashlib.sha256(source.encode()).hexdigest()
     except (OSError, TypeError):
-        pass
+        source = None
+    if source is not None:
+        # One source text can define many functions: a factory's inner function
+        # differs only in what it captured, `def f(x=K)` only in the default
+        # evaluated at definition time. Those are different definitions.
+        h = hashlib.sha256(source.encode())
+        _hash_runtime_bindings(h, func)
+        return h.hexdigest()
 
     # Bytecode fallback — for exec/eval/Jupyter-defined functions
     code = getattr(func, "__code__", None)
@@ -64,18 +87,7 @@ def hash_definition(func: Callable) -> str:
         consts_serialized = tuple(c if not hasattr(c, "co_name") else c.co_name for c in code.co_consts)
         h.update(repr(consts_serialized).encode())
 
-        # Include function defaults to distinguish f(x=1) from f(x=2)
-        h.update(repr(getattr(func, "__defaults__", None)).encode())
-        h.update(repr(getattr(func, "__kwdefaults__", None)).encode())
-
-        # Include closure values to distinguish functions with different captured variables
-        closure = getattr(func, "__closure__", None)
-        if closure:
-            for cell in closure:
-                try:
-                    h.update(repr(cell.cell_contents).encode())
-                except ValueError:
-                    h.update(b"<empty_cell>")
+        _hash_runtime_bindings(h, func)
 
         return h.hexdigest()
 
